@@ -3,11 +3,13 @@
 package proxy
 
 import (
+	"context"
 	"fmt"
 	"net"
 	"slices"
 	"strconv"
 
+	"github.com/fatedier/frp/pkg/msg"
 	"github.com/fatedier/frp/verif"
 )
 
@@ -186,4 +188,162 @@ func verif_SUDPProxy_Close(pxy *SUDPProxy) {
 	verif.ResetEvents()
 	pxy.Close()
 	verif.Ensures(verif.CalledWith("visitor.Manager).CloseListener", 1, name), "releases_own_listener_entry")
+}
+
+// ---------------------------------------------------------------- the Proxy interface seen from the session
+
+// Attributes of a proxy that are fixed when it is constructed; calls through
+// the interface are treated as effect-free functions of the proxy (assumption,
+// listed in the evidence).
+//
+//verif:getter (~/server/proxy.Proxy).GetName (~/server/proxy.Proxy).GetConfigurer (~/server/proxy.Proxy).GetUserInfo (~/server/proxy.Proxy).GetLimiter (~/server/proxy.Proxy).GetLoginMsg (~/server/proxy.Proxy).Context (~/server/proxy.Proxy).GetResourceController
+//verif:getter (~/pkg/config/v1.ProxyConfigurer).GetBaseConfig
+
+// VerifUsedPorts: the number of public ports a proxy accounts for (0 or 1).
+//
+//verif:uninterp
+func VerifUsedPorts(p Proxy) int { return 0 }
+
+//verif:contract (~/server/proxy.Proxy).GetUsedPortsNum
+//verif:trusted
+func verif_Proxy_GetUsedPortsNum(p Proxy) {
+	n := p.GetUsedPortsNum()
+	verif.Ensures(n >= 0 && n == VerifUsedPorts(p), "fixed_nonnegative_attribute")
+}
+
+// Run / Close of an arbitrary proxy type: only "whatever the concrete type
+// does" is known at the session level; the concrete types have their own
+// contracts above.
+//
+//verif:contract (~/server/proxy.Proxy).Run
+//verif:trusted
+//verif:modifies *
+//verif:preserves H.server.Control. H.server.Service. H.server.ControlManager. H.pkg.config.v1.ServerConfig. H.pkg.msg.
+func verif_Proxy_Run(p Proxy) { p.Run() }
+
+//verif:contract (~/server/proxy.Proxy).Close
+//verif:trusted
+//verif:modifies *
+//verif:preserves H.server.Control. H.server.Service. H.server.ControlManager. H.pkg.config.v1.ServerConfig. H.pkg.msg.
+func verif_Proxy_Close(p Proxy) { p.Close() }
+
+// ---------------------------------------------------------------- C12: the global proxy-name table
+
+//verif:guarded Manager mu pxys
+
+//verif:invariant Manager mu
+func (pm *Manager) verifInvNames(name string) bool {
+	return pm.pxys != nil
+}
+
+//verif:contract ~/server/proxy.NewManager
+//verif:props C12
+func verif_NewManager(name string) {
+	pm := NewManager()
+	verif.Ensures(pm != nil && pm.verifInvNames(name) && !verif.Has(pm.pxys, name), "establishes_invariant_empty")
+}
+
+// "a second registration of a live name is refused and the incumbent keeps working"
+//
+//verif:contract (*~/server/proxy.Manager).Add
+//verif:props C12 C10
+func verif_Manager_Add(pm *Manager, name string, pxy Proxy, q string) {
+	tab0 := verif.Snap(pm.pxys)
+	err := pm.Add(name, pxy)
+	if verif.Has(tab0, name) {
+		verif.Ensures(err != nil, "live_name_refused")
+		verif.Ensures(pm.pxys[name] == tab0[name], "incumbent_untouched")
+	} else {
+		verif.Ensures(err == nil && verif.Has(pm.pxys, name) && pm.pxys[name] == pxy, "free_name_registered")
+	}
+	if q != name {
+		verif.Ensures(verif.Has(pm.pxys, q) == verif.Has(tab0, q) && pm.pxys[q] == tab0[q], "other_names_untouched")
+	}
+}
+
+//verif:contract (*~/server/proxy.Manager).Del
+//verif:props C12 C10
+func verif_Manager_Del(pm *Manager, name string, q string) {
+	tab0 := verif.Snap(pm.pxys)
+	pm.Del(name)
+	verif.Ensures(!verif.Has(pm.pxys, name), "name_released")
+	if q != name {
+		verif.Ensures(verif.Has(pm.pxys, q) == verif.Has(tab0, q) && pm.pxys[q] == tab0[q], "other_names_untouched")
+	}
+}
+
+//verif:contract (*~/server/proxy.Manager).Exist
+//verif:props C12
+func verif_Manager_Exist(pm *Manager, name string) {
+	had := verif.Has(pm.pxys, name)
+	verif.Ensures(pm.Exist(name) == had, "answers_table")
+}
+
+//verif:contract (*~/server/proxy.Manager).GetByName
+//verif:props C12
+func verif_Manager_GetByName(pm *Manager, name string) {
+	p0, had := pm.pxys[name]
+	p, ok := pm.GetByName(name)
+	verif.Ensures(ok == had && p == p0, "answers_table")
+}
+
+// ---------------------------------------------------------------- C11 / C01: taking a work connection for a user
+
+// The session's work-connection source as seen from a proxy: a connection or an error.
+//
+//verif:fieldfn BaseProxy getWorkConnFn
+func verifSpec_getWorkConnFn() (net.Conn, error) {
+	c := verif.Any[net.Conn]()
+	err := verif.Any[error]()
+	verif.Assume(err != nil || c != nil, "work-connection source returns a connection or an error")
+	return c, err
+}
+
+const evSource = "fieldfn:H.server.proxy.BaseProxy.getWorkConnFn"
+
+// GetWorkConnFromPool: when the session cannot supply a work connection the
+// caller is told at once (no further waiting rounds, so the user connection is
+// closed within the configured timeout); every StartWorkConn written names this
+// proxy, carries no error and the user's real source address; a connection whose
+// announcement fails is closed, not parked.
+//
+//verif:contract (*~/server/proxy.BaseProxy).GetWorkConnFromPool
+//verif:props C11 C01
+func verif_GetWorkConnFromPool(pxy *BaseProxy, src, dst net.Addr) {
+	name := pxy.GetName()
+	verif.ResetEvents()
+	wc, err := pxy.GetWorkConnFromPool(src, dst)
+	if verif.CalledInIter(evSource) && verif.Ret[error](evSource, 1) != nil {
+		verif.Ensures(err != nil, "source_failure_is_reported_at_once")
+	}
+	if verif.CalledInIter("pkg/msg.WriteMsg") {
+		m := verif.NthArg[msg.Message]("pkg/msg.WriteMsg", 0, 1).(*msg.StartWorkConn)
+		verif.Ensures(m.ProxyName == name && m.Error == "", "announcement_names_this_proxy")
+		if verif.RetErr("pkg/msg.WriteMsg", 0) != nil {
+			verif.Ensures(verif.Called("net.Conn).Close") || verif.Called("ContextConn).Close"), "failed_announcement_closes_connection")
+		}
+	}
+	_ = wc
+}
+
+//verif:loop (*~/server/proxy.BaseProxy).GetWorkConnFromPool 1 inv=verifLoopPoolTries args=err
+func verifLoopPoolTries(err error) bool { return err == nil }
+
+// NewProxy: a proxy object or an error.
+//
+//verif:contract ~/server/proxy.NewProxy
+//verif:props C10
+func verif_NewProxy(ctx context.Context, options *Options) {
+	pxy, err := NewProxy(ctx, options)
+	verif.Ensures(err != nil || pxy != nil, "proxy_or_error")
+}
+
+// The per-type constructor looked up in proxyFactoryRegistry: it wraps the
+// fresh base proxy it is given (it may set the base proxy's port count) and
+// touches nothing else.
+//
+//verif:dyncall ~/server/proxy.NewProxy 1
+func verifSpec_proxyFactory(base *BaseProxy) Proxy {
+	base.usedPortsNum = verif.Any[int]()
+	return verif.Any[Proxy]()
 }
